@@ -407,6 +407,27 @@ func C20(rep *ev.Reporter, tier string) {
 			}
 		}
 	}
+	// operations on two LITERALS (whatever a loader may fold, check or pre-evaluate): every binary operator x every pair
+	// of 12 literal operands incl. zero in every spelling, in a condition and in an action; through JSON too
+	{
+		lits := []string{"0", "1", "-1", "0x0", "00", "-0", "7", "1.5", "0.0", `"s"`, "true", "nil"}
+		for _, op := range []string{"+", "-", "*", "/", "%", "&", "|", "==", "!=", "<", "<=", ">", ">=", "&&", "||"} {
+			for _, a := range lits {
+				for _, b := range lits {
+					add(c20GRL, "literal-operation", []byte("rule r { when "+a+" "+op+" "+b+" == 1 then F.I = 1; }"))
+					add(c20GRL, "literal-operation", []byte("rule r { when F.B then F.I = "+a+" "+op+" "+b+"; }"))
+				}
+			}
+		}
+		jl := []string{"0", "1", "-1", "7", "1.5", "0.0", `"s"`, "true", "null"}
+		for _, op := range []string{"plus", "minus", "mul", "div", "mod", "band", "bor", "eq", "not", "gt", "gte", "lt", "lte", "and", "or"} {
+			for _, a := range jl {
+				for _, b := range jl {
+					add(c20JSONRule, "literal-operation", []byte(`{"name":"r","when":{"eq":[{"`+op+`":[{"const":`+a+`},{"const":`+b+`}]},1]},"then":["F.I = 1"]}`))
+				}
+			}
+		}
+	}
 	// boundary numbers and nesting
 	nums := []string{"2147483647", "2147483648", "-2147483649", "9223372036854775807", "9223372036854775808", "18446744073709551616", strings.Repeat("9", 400), "1e999", "-1e999", "0x" + strings.Repeat("f", 40), "0" + strings.Repeat("7", 40), "1." + strings.Repeat("0", 400) + "1", "1e-999"}
 	for _, n := range nums {
@@ -642,7 +663,7 @@ func C20(rep *ev.Reporter, tier string) {
 		rep.Exhaustive = false
 		rep.Coverage["caps_hit"] = fmt.Sprintf("time budget: %d of %d inputs run", ran, total)
 	}
-	rep.Coverage["rule"] = "four loaders (GRL text via the builder - into a fresh knowledge base and onto two knowledge bases that came out of the binary loader, one of them without any variable -, JSON rule via JSONResource+builder, JSON fact via DataContext.AddJSON, binary stream via LoadKnowledgeBaseFromReader), bounded-exhaustive input spaces, no sampling: every byte string of length <= 2 and every length-3 string over a 24-byte structural alphabet; for each valid seed every single-point mutation (every bit flip, every byte set to 00/7f/80/ff, truncation at every offset), every field start of a binary seed (boundaries from a tracing writer) overwritten with 13 boundary values, every node reference (AstID text) of a binary seed replaced by every other id of the stream (dangling, duplicated and cyclic references), splices of seed pairs, boundary numbers in every numeric position, every single byte of two multi-rule documents (saliences, descriptions, constants beyond 32 / near 64 bits after the damaged place) deleted or blanked, nesting depth 10..2000 (brackets, negations, operator chains, statement lists, and every recursive atom production - selector, member, method call and their mixes - repeated on every kind of head: variable, call, string constant, bare name; nested selectors and call arguments - each shape at depths 12, 16, 22 with a growth oracle: allocation at depth 16 at most 4x that at depth 12); for the JSON loaders every string value of a seed extended at either end by each of 18 tails (CR, VT, FF, NBSP, line separator, repeated ';', comment openers, NUL, backslash) and every value of a seed (at every path) replaced by each of 11 alien values (null, true, numbers, empty and null-holding containers, 1e999) and every token string of length <= 4 over a 13-token JSON alphabet. Each input runs in a child process under RLIMIT_AS (ulimit -v 4 GiB): the worker must survive (no escaped panic, no runtime abort), return a value or an error, allocate at most 8 MiB + 2048 bytes per input byte (runtime.MemStats.TotalAlloc delta) and finish within the hang horizon. Every input is non-trivial (it exercises a loader end to end)."
+	rep.Coverage["rule"] = "four loaders (GRL text via the builder - into a fresh knowledge base and onto two knowledge bases that came out of the binary loader, one of them without any variable -, JSON rule via JSONResource+builder, JSON fact via DataContext.AddJSON, binary stream via LoadKnowledgeBaseFromReader), bounded-exhaustive input spaces, no sampling: every byte string of length <= 2 and every length-3 string over a 24-byte structural alphabet; for each valid seed every single-point mutation (every bit flip, every byte set to 00/7f/80/ff, truncation at every offset), every field start of a binary seed (boundaries from a tracing writer) overwritten with 13 boundary values, every node reference (AstID text) of a binary seed replaced by every other id of the stream (dangling, duplicated and cyclic references), splices of seed pairs, boundary numbers in every numeric position, every binary operator between every pair of 12 literal operands (zero in every spelling) in conditions and actions, every single byte of two multi-rule documents (saliences, descriptions, constants beyond 32 / near 64 bits after the damaged place) deleted or blanked, nesting depth 10..2000 (brackets, negations, operator chains, statement lists, and every recursive atom production - selector, member, method call and their mixes - repeated on every kind of head: variable, call, string constant, bare name; nested selectors and call arguments - each shape at depths 12, 16, 22 with a growth oracle: allocation at depth 16 at most 4x that at depth 12); for the JSON loaders every string value of a seed extended at either end by each of 18 tails (CR, VT, FF, NBSP, line separator, repeated ';', comment openers, NUL, backslash) and every value of a seed (at every path) replaced by each of 11 alien values (null, true, numbers, empty and null-holding containers, 1e999) and every token string of length <= 4 over a 13-token JSON alphabet. Each input runs in a child process under RLIMIT_AS (ulimit -v 4 GiB): the worker must survive (no escaped panic, no runtime abort), return a value or an error, allocate at most 8 MiB + 2048 bytes per input byte (runtime.MemStats.TotalAlloc delta) and finish within the hang horizon. Every input is non-trivial (it exercises a loader end to end)."
 	rep.Assumptions = append(rep.Assumptions, "uniformly random long inputs are sampling and outside this family; hang detection uses a wall clock (30 s for inputs that take microseconds, confirmed twice in isolation)")
 }
 
